@@ -5,7 +5,9 @@ import json, os, re, shutil, subprocess, sys, glob
 ROOT = os.path.dirname(os.path.dirname(os.path.abspath(__file__)))
 prop = sys.argv[1]
 nums = sys.argv[2:] or ["1", "2"]
-src = f"/tmp/seed/{prop}"
+root = os.environ.get("SEED_ROOT", "/tmp/seed")
+tag = os.environ.get("SEED_TAG", "")
+src = f"{root}/{prop}"
 wt = f"/tmp/ingest_{prop}"
 subprocess.run(["git", "-C", "/repo", "worktree", "remove", "--force", wt], capture_output=True)
 subprocess.run(["git", "-C", "/repo", "worktree", "add", "-q", "--detach", wt, "HEAD"], check=True)
@@ -39,7 +41,7 @@ try:
         if not ok:
             print("   ", out0[-200:].replace("\n", " | ")); print("   ", out1[-200:].replace("\n", " | ")); print("   ", b.stdout[-200:])
             continue
-        sid = f"{prop}-{n}"
+        sid = f"{prop}-{tag}{n}"
         d = os.path.join(ROOT, "seeded", sid)
         os.makedirs(d, exist_ok=True)
         shutil.copy(diff, os.path.join(d, "patch.diff"))
